@@ -68,6 +68,25 @@ func genPTSCase(t *rapid.T) PTSCase {
 		}
 		c.Tracks = append(c.Tracks, tr)
 	}
+	// two cases in three run on the harness's clock (exact judgement of late-track placement): a short cycle of
+	// advances with arbitrary nanosecond phases, from nothing to seconds
+	if rapid.IntRange(0, 2).Draw(t, "fake_clock") != 0 {
+		nc := rapid.IntRange(1, 7).Draw(t, "nclock")
+		for k := 0; k < nc; k++ {
+			var adv int64
+			switch rapid.IntRange(0, 3).Draw(t, "adv_cat") {
+			case 0:
+				adv = rapid.Int64Range(0, 200000).Draw(t, "adv_us") // below one tick of slow clocks
+			case 1:
+				adv = rapid.Int64Range(0, 40000000).Draw(t, "adv_ms")
+			case 2:
+				adv = rapid.Int64Range(0, 5000000000).Draw(t, "adv_s")
+			default:
+				adv = 1
+			}
+			c.ClockNs = append(c.ClockNs, adv)
+		}
+	}
 	return c
 }
 
@@ -81,6 +100,9 @@ func TestC15PTS(t *testing.T) {
 		labels := []string{"part:pts"}
 		if st.Late > 0 {
 			labels = append(labels, "late-track")
+		}
+		if st.LateExact > 0 {
+			labels = append(labels, "late-track-exact-clock")
 		}
 		if st.Crossings > 0 {
 			labels = append(labels, "crosses-2^32")
